@@ -191,7 +191,11 @@ func writeBlock(b *strings.Builder, n *YNode, indent int) {
 					b.WriteString(pad + "# " + c + "\n")
 				}
 			}
-			b.WriteString(pad + scalarText(k, false) + ":")
+			kt := scalarText(k, false)
+			if k.Tag != "" {
+				kt = k.Tag + " " + kt // a tagged key: `!switch target:`
+			}
+			b.WriteString(pad + kt + ":")
 			writeValue(b, n.Vals[i], indent)
 		}
 	case n.IsSeq:
